@@ -256,7 +256,9 @@ def r8(ctx, prog):
     f = prog.fn1(BACKENDS['select'][1] + '::fillFdSets')
     for name, bit, ctr, ebit in KINDS:
         ifs = [st for st in f.stmts if st and st['k'] == 'IfStmt' and any(p_ == name + '_set.fds_bits' or p_.startswith(name + '_set') for p_ in q.subtree_paths(f, st['then']))]
-        ok = len(ifs) == 1 and q.edge_holds(f, ifs[0]['cond'], 0, 'data.' + ctr, '>', '0')
+        # "counter > 0" in any spelling (> 0, != 0, >= 1): folded over 0..3
+        ok = len(ifs) == 1 and all(bool(q.eval_expr(f, ifs[0]['cond'], lambda sx, v=v: v if (sx['k'] == 'MemberExpr' and sx.get('n') == ctr) else None)) == (v >= 1)
+                                   for v in range(0, 4))
         ctx.ob('C03.R8', '%s|set-%s' % (f.name, name), ok, 'descriptor put into %s_set iff %s > 0' % (name, ctr) if ok else
                'the %s set is not filled exactly when %s > 0' % (name, ctr), where=f.loc(ifs[0]['i'] if ifs else f.body))
     # ready bits -> tbox bits
@@ -302,6 +304,92 @@ def r8(ctx, prog):
            'select ready-set translation is %s, expected %s' % (sorted(got, key=str), sorted(want)), where=f.loc(calls[0]['i'] if calls else f.body))
 
 
+def r9(ctx, prog):
+    ctx.rule('C03.R9', 'A10 dispatch coverage by finite folding: the dispatch loops visit exactly the ready entries the kernel reported (epoll: indices 0..fds-1 of the event '
+             'array; select: descriptors 0..nfds-1, entered whenever select() returned > 0), the select interest sets contain a descriptor exactly when the matching '
+             'subscriber counter is >= 1 and only negative descriptors are skipped, and the shared per-descriptor record is recycled exactly when its reference count '
+             'reaches 0 — each condition found in the code is folded over a small domain and compared with the stated predicate', floor=8)
+    ep = prog.fn1('tbox::event::EpollLoop::runLoop')
+    sl = prog.fn1('tbox::event::SelectLoop::runLoop')
+    fill = prog.fn1('tbox::event::SelectLoop::fillFdSets')
+
+    def loop_over(f, bound):
+        ls = [st for st in f.stmts if st and st['k'] == 'ForStmt' and st.get('cond') is not None and bound in {f.stmts[x].get('n') for x in f.walk(st['cond'])}]
+        return ls[0] if ls else None
+    for f, bound, what in ((ep, 'fds', 'epoll_wait() result'), (sl, 'nfds', 'nfds')):
+        lp = loop_over(f, bound)
+        tr = q.loop_trips(f, lp, bound) if lp is not None else None
+        ok = tr is not None and all(tr[N] == (N, 0) for N in tr)
+        wit = next(((N, tr[N]) for N in tr if tr[N] != (N, 0)), None) if tr else None
+        ctx.ob('C03.R9', '%s|dispatch-range' % f.name, ok, 'the dispatch loop visits indices 0..%s-1, each once' % bound if ok else
+               'the dispatch loop does not visit exactly the %s entries 0..%s-1%s: a ready descriptor is never served, or a stale entry of an earlier pass is dispatched' %
+               (what, bound, (' (for %s=%d it runs %d time(s) from index %d)' % (bound, wit[0], wit[1][0], wit[1][1])) if wit else ''), where=f.loc(lp['i']) if lp else f.loc(f.body))
+    # select: the scan is entered exactly when select() returned a positive count
+    lp = loop_over(sl, 'nfds')
+    gate = None
+    if lp is not None:
+        for cond, k, b in sl.cfg.controlling_branches(sl.cfg.point_of(lp['cond'])):
+            names = {sl.stmts[x].get('n') for x in sl.walk(cond) if sl.stmts[x]['k'] == 'DeclRefExpr'}
+            if names == {'select_ret'}:
+                gate = (cond, k)
+    if gate is None:
+        raise AnalysisBroken('SelectLoop::runLoop: the test of select()\'s result in front of the scan was not found')
+    bad = [v for v in (-1, 0, 1, 2, 5) if (bool(q.eval_expr(sl, gate[0], lambda sx, v=v: (v if v >= 0 else None) if sx['k'] == 'DeclRefExpr' else None)) == (gate[1] == 0)) != (v > 0) and v >= 0]
+    ctx.ob('C03.R9', '%s|scan-gate' % sl.name, not bad, 'the descriptor scan runs exactly when select() reported at least one ready descriptor' if not bad else
+           'the scan is %s for select() == %d' % ('skipped' if bad[0] > 0 else 'entered', bad[0]), where=sl.loc(gate[0]))
+    # select: interest sets
+    n = 0
+    for st in fill.stmts:
+        if st and st['k'] == 'IfStmt' and st.get('cond') is not None:
+            flds = [x for x in q.subtree_fields(fill, st['cond']) if x.endswith('_event_num')]
+            if len(flds) != 1:
+                continue
+            n += 1
+            fname = flds[0].split('::')[-1]
+            def leaf(sx, v=None):
+                return None
+            bad = []
+            for v in range(0, 4):
+                r = q.eval_expr(fill, st['cond'], lambda sx, v=v: v if (sx['k'] == 'MemberExpr' and sx.get('n') == fname) else None)
+                if r is None or bool(r) != (v >= 1):
+                    bad.append(v)
+            ctx.ob('C03.R9', '%s|%s' % (fill.name, fname), not bad, 'the descriptor is put into the set exactly when %s >= 1' % fname if not bad else
+                   'with %s == %d the descriptor is %s the set: %s' % (fname, bad[0], 'left out of' if bad[0] >= 1 else 'put into',
+                                                                      'an event with a single subscriber never fires' if bad[0] >= 1 else 'select() waits on a descriptor nobody subscribed to'),
+                   where=fill.loc(st['cond']))
+    if n < 3:
+        raise AnalysisBroken('fillFdSets: expected the three counter tests (read/write/except), found %d' % n)
+    skip = [st for st in fill.stmts if st and st['k'] == 'IfStmt' and st.get('cond') is not None and {fill.stmts[x].get('n') for x in fill.walk(st['cond']) if fill.stmts[x]['k'] == 'DeclRefExpr'} == {'fd'}
+            and any(fill.stmts[x]['k'] == 'ContinueStmt' for x in fill.walk(st['i']))]
+    for st in skip:
+        # negative descriptors cannot be folded by eval_expr (non-negative domain): compare the operator and constant directly
+        rel = q.edge_relation(fill, st['cond'], 0)
+        ok = rel is not None and ((rel[0] == 'fd' and rel[1] == '<' and rel[2] == '0') or (rel[0] == 'fd' and rel[1] == '<=' and rel[2] == '-1'))
+        ctx.ob('C03.R9', '%s|skip-negative' % fill.name, ok, 'only negative descriptors are skipped' if ok else
+               'descriptors are skipped under %s %s %s: descriptor 0 (standard input) is never watched' % (rel if rel else ('?', '?', '?')), where=fill.loc(st['cond']))
+    # both back-ends: recycle exactly at zero
+    for cls in ('tbox::event::EpollLoop', 'tbox::event::SelectLoop'):
+        u = prog.fn1(cls + '::unrefFdSharedData')
+        fr = [c for c in u.calls() if c.get('fn') == 'free']
+        if not fr:
+            raise AnalysisBroken('%s::unrefFdSharedData: pool free not found' % cls)
+        g = None
+        for cond, k, b in u.cfg.controlling_branches(q.pt(u, fr[0])):
+            if any(x.endswith('::ref') for x in q.subtree_fields(u, cond)):
+                g = (cond, k)
+        dec = [st for st in u.stmts if st and st['k'] == 'UnaryOperator' and st.get('op') == '--' and (u.field_of(st['ch'][0]) or '').endswith('::ref')]
+        ok = g is not None and bool(dec) and u.cfg.dominates(q.pt_or_term(u, dec[0]), u.cfg.point_of(g[0]))
+        bad = []
+        if ok:
+            for v in range(0, 4):
+                r = q.eval_expr(u, g[0], lambda sx, v=v: v if (sx['k'] == 'MemberExpr' and sx.get('n') == 'ref') else None)
+                if r is None or (bool(r) == (g[1] == 0)) != (v == 0):
+                    bad.append(v)
+        ctx.ob('C03.R9', '%s|recycle-at-zero' % u.name, ok and not bad, 'the record is recycled exactly when the decremented count is 0' if ok and not bad else
+               'the shared record is recycled when the count left after the decrement is %s: %s' % (bad[0] if bad else '?', 'it is still referenced by the dispatch loop or another event (use after free)'
+                                                                                                  if bad and bad[0] > 0 else 'it is never recycled'), where=u.loc(fr[0]['i']))
+
+
 def run(ctx):
     prog = extract('ALL' if ctx.tier == 'thorough' else SCOPE)
     ctx.guard(r1, ctx, prog)
@@ -311,4 +399,5 @@ def run(ctx):
     ctx.guard(r5, ctx, prog)
     ctx.guard(r7, ctx, prog)
     ctx.guard(r8, ctx, prog)
+    ctx.guard(r9, ctx, prog)
     return prog
